@@ -4,6 +4,7 @@ import (
 	"encoding/json"
 	"fmt"
 	"os"
+	"runtime"
 	"runtime/debug"
 	"sort"
 	"strconv"
@@ -48,6 +49,11 @@ func execute(t *testing.T, eng *Engine, seed uint64, wl, sch *Tape) (res RunResu
 	limit := time.Duration(envInt("VERIF_RUN_WALL_S", 60)) * time.Second
 	wd := time.AfterFunc(limit, func() {
 		fmt.Fprintf(os.Stderr, "WATCHDOG: run with seed %d exceeded %s of wall clock\n", seed, limit)
+		if os.Getenv("VERIF_WD_STACKS") != "" {
+			buf := make([]byte, 1<<20)
+			n := runtime.Stack(buf, true)
+			os.Stderr.Write(buf[:n])
+		}
 		os.Exit(3)
 	})
 	defer wd.Stop()
@@ -84,6 +90,12 @@ func execute(t *testing.T, eng *Engine, seed uint64, wl, sch *Tape) (res RunResu
 				// synctest panics when the bubble's root returns while goroutines are
 				// still blocked; that is a leak of the code under test, not a verdict.
 				res.Panic = fmt.Sprint(r)
+				if os.Getenv("VERIF_WD_STACKS") != "" {
+					buf := make([]byte, 1<<20)
+					n := runtime.Stack(buf, true)
+					os.Stderr.Write(buf[:n])
+					os.Exit(4)
+				}
 			}
 		}()
 		if eng.NoBubble {
@@ -351,4 +363,14 @@ func replayMain(t *testing.T, eng *Engine, path string) {
 	} else {
 		fmt.Println("REPLAY-CLEAN")
 	}
+}
+
+// isKnownClass: VERIF_KNOWN lists the violation classes (property/clause) of open known findings.
+func isKnownClass(c string) bool {
+	for _, k := range strings.Split(os.Getenv("VERIF_KNOWN"), ",") {
+		if strings.TrimSpace(k) == c && c != "" {
+			return true
+		}
+	}
+	return false
 }
